@@ -1,6 +1,7 @@
 /- DDS.Driver.SketchOps — sketch-level lines (C01 C02 C06 C07 C08 C10 C11 C12 C13 C14 C15 C16). -/
 import DDS.Model.Sketch
 import DDS.Model.ChangeMapping
+import DDS.Model.Proto
 import DDS.Driver.Util
 import Std.Data.HashMap
 
@@ -38,7 +39,7 @@ structure Tbl where
   sks : List (Nat × Entry) := []
 
 def isSketchCmd (c : String) : Bool :=
-  c ∈ ["M", "mv", "ml", "mi", "K", "add", "q", "qs", "obs", "merge", "copy", "clear", "rew", "encchk", "dec", "decm", "same", "chmap"]
+  c ∈ ["M", "mv", "ml", "mi", "K", "add", "q", "qs", "obs", "merge", "copy", "clear", "rew", "encchk", "dec", "decm", "same", "chmap", "pbchk", "frompb"]
 
 def parseMKind : String → Option MKind
   | "log" => some .log
@@ -322,6 +323,44 @@ def run (t : Tbl) (cmd : String) (args : List String) : Tbl × String :=
                 (t, if dp == "" && dn == "" then "ok" else s!"MODEL-DIFF pos[{dp}] neg[{dn}]")
               | _, _ => (t, "MODEL-DIFF non-finite")
           | _, _, _, _ => (t, "bad-op")
+    | _, _ => (t, "bad-op")
+  | "pbchk", [h, marshalled, streamed] =>
+    -- the message built in memory (marshalled by the protobuf library) and the bytes of the streaming
+    -- writer must both parse to the model's own ToProto() of the sketch
+    match parseBytes marshalled, parseBytes streamed with
+    | some mb, some sb =>
+      withSk t h fun _ e =>
+        let s := inner e.sk
+        match Proto.toProto s, Proto.streamBytes s with
+        | some mine, some myStream =>
+          let want := Proto.norm mine
+          let r1 := match Proto.pbParse mb with
+            | .ok m => decide (Proto.norm m = want)
+            | .error _ => false
+          let r2 := match Proto.pbParse sb with
+            | .ok m => decide (Proto.norm m = want)
+            | .error _ => false
+          -- model-internal: the model's own streamed bytes parse back to its message
+          let r3 := match Proto.pbParse myStream with
+            | .ok m => decide (Proto.norm m = want)
+            | .error _ => false
+          (t, if r1 && r2 && r3 then "ok" else s!"PB-DIFF marshalled={r1} streamed={r2} self={r3}")
+        | _, _ => (t, "panic")
+    | _, _ => (t, "bad-op")
+  | "frompb", h :: om :: rest =>
+    -- frompb <h> <oracleMh|-> <storekind> [N] <bytes>
+    match parseNat h, parseStoreKind rest with
+    | some h, some (k, [bytes]) =>
+      match parseBytes bytes with
+      | some bs =>
+        match Proto.pbParse bs with
+        | .error _ => (t, "err:pbparse")
+        | .ok msg =>
+          match Proto.fromProto k msg with
+          | none => (t, "panic")
+          | some (.error _) => (t, "err:frompb")
+          | some (.ok sk) => (putSk t h { sk := Sk.plain sk, map := parseNat om }, "ok")
+      | none => (t, "bad-op")
     | _, _ => (t, "bad-op")
   | "encchk", [h, om, bytes] =>
     match parseBytes bytes with
